@@ -13,6 +13,12 @@ Cols(M) == IF Len(M) = 0 THEN 0 ELSE Len(M[1])
 Vec(n, f(_))       == TLCEval([i \in 1..n |-> f(i)])
 Mat(r, c, f(_, _)) == TLCEval([i \in 1..r |-> TLCEval([j \in 1..c |-> f(i, j)])])
 
+\* TLC re-evaluates a LET definition at every use, but caches operator *arguments*.  With/With2/With3 bind
+\* expensive intermediate values as arguments of a LAMBDA so that they are computed once.
+With(v, F(_))              == F(v)
+With2(u, v, F(_, _))       == F(u, v)
+With3(u, v, w, F(_, _, _)) == F(u, v, w)
+
 RECURSIVE RSumSeq(_)
 RSumSeq(s) == IF Len(s) = 0 THEN RZero ELSE RAdd(s[1], RSumSeq(Tail(s)))
 
@@ -26,7 +32,7 @@ VZero(n)       == Vec(n, LAMBDA i : RZero)
 Transpose(M)   == Mat(Cols(M), Rows(M), LAMBDA j, i : M[i][j])
 Col(M, j)      == Vec(Rows(M), LAMBDA i : M[i][j])
 MatVec(M, v)   == Vec(Rows(M), LAMBDA i : Dot(M[i], v))
-MatMul(A, B)   == LET Bt == Transpose(B) IN Mat(Rows(A), Cols(B), LAMBDA i, j : Dot(A[i], Bt[j]))
+MatMul(A, B)   == With(Transpose(B), LAMBDA Bt : Mat(Rows(A), Cols(B), LAMBDA i, j : Dot(A[i], Bt[j])))
 MatAdd(A, B)   == Mat(Rows(A), Cols(A), LAMBDA i, j : RAdd(A[i][j], B[i][j]))
 MatSub(A, B)   == Mat(Rows(A), Cols(A), LAMBDA i, j : RSub(A[i][j], B[i][j]))
 MatScale(c, A) == Mat(Rows(A), Cols(A), LAMBDA i, j : RMul(c, A[i][j]))
@@ -63,11 +69,17 @@ Cofactor(M, i, j) ==
   IN  IF (i + j) % 2 = 0 THEN d ELSE RNeg(d)
 Invertible(M) == Det(M) # RZero
 Inverse(M) ==
-  LET d == Det(M)
-  IN Mat(Rows(M), Cols(M), LAMBDA i, j : RDiv(Cofactor(M, j, i), d))
+  With(Det(M), LAMBDA d : Mat(Rows(M), Cols(M), LAMBDA i, j : RDiv(Cofactor(M, j, i), d)))
 
-MatEq(A, B) == A = B       \* entries are normalised rationals, so structural equality is exact equality
-IsSymmetric(M) == M = Transpose(M)
+\* "not representable" (see Rat) anywhere in a vector / matrix
+VecNaN(v) == \E q \in 1..Len(v) : IsNaN(v[q])
+MatNaN(M) == \E p \in 1..Rows(M) : \E q \in 1..Cols(M) : IsNaN(M[p][q])
+\* entries are normalised rationals, so structural equality is exact equality; a law is not judged on
+\* values that left the representable range
+MEq(A, B) == MatNaN(A) \/ MatNaN(B) \/ A = B
+VEq(u, v) == VecNaN(u) \/ VecNaN(v) \/ u = v
+REqN(a, b) == IsNaN(a) \/ IsNaN(b) \/ a = b
+IsSymmetric(M) == MEq(M, Transpose(M))
 Trace(M) == RSumSeq(Vec(Rows(M), LAMBDA i : M[i][i]))
 
 \* quadratic form v^T M v
